@@ -9,7 +9,7 @@ from . import common
 
 PROP = "C10"
 KQ = ("NL", "CE", "J", "CEE", "IND0")
-KT = KQ + ('W3', 'CO')
+KT = KQ + ('W3',)
 
 
 class Mon(drivers.Monitor):
